@@ -346,3 +346,17 @@ Fixpoint sortedb {A : Type} (lt : A -> A -> bool) (l : list A) : bool :=
   | x :: r => forallb (fun y => negb (lt y x)) r && sortedb lt r
   end.
 Definition uids_sortedb (k : key) : bool := sortedb (uid_lt (p_label k)) (p_uids k).
+(* every subkey is public exactly when the key is (PGPKey.__or__ accepts nothing else) *)
+Definition wf_pubb (k : key) : bool := forallb (fun sk => Bool.eqb (sk_public sk) (p_public k)) (p_subs k).
+(* the subkey dictionary has one entry per label *)
+Fixpoint nodupb (l : list Z) : bool :=
+  match l with
+  | [] => true
+  | x :: r => negb (existsb (Z.eqb x) r) && nodupb r
+  end.
+Definition sub_labels_nodupb (k : key) : bool := nodupb (map sk_label (p_subs k)).
+(* all four kinds of list are in order *)
+Definition all_sortedb (k : key) : bool :=
+  sortedb item_lt (p_sigs k) && forallb (fun u => sortedb sig_lt (u_sigs u)) (p_uids k)
+  && forallb (fun sk => sortedb item_lt (sk_sigs sk)) (p_subs k) && uids_sortedb k.
+Definition wfkb (k : key) : bool := wf_pubb k && sub_labels_nodupb k.
